@@ -29,7 +29,7 @@ def plan(tier, seed):
 
 
 def unit_timeout(tier):
-    return 200 if tier == "quick" else 400
+    return 60 if tier == "quick" else 400
 
 
 def floors(tier):
